@@ -264,6 +264,9 @@ package core
 //@ func (*UseCase).UpdateTx
 //@   requires inv:    ucInv(u)
 //@   requires ids:    oldTxId != newTxId && newTxId != ""
+// the log of what was handed to the version-record repository is ghost state: it is read relative to an
+// empty log at entry (no behaviour depends on it)
+//@   requires nolog:  len(world.logSeq) == 0 && len(world.logCid) == 0
 //@   modifies model.File.*, core.Node[model.File].next, core.Node[model.File].prev, core.Node[model.File].link, core.Node[model.File].linkOf, core.Node[model.File].owner, core.Node[model.File].idx,
 //@            core.Node[model.File].inPool, core.List[model.File].elems, core.List[model.File].base, core.file.arr, core.file.withoutSearch, core.file.gtx, core.file.gkey,
 //@            mem[*core.Node[model.File]], mem[*core.file], backing.owner, core.Transaction.store, core.Transaction.gid, core.Transactions.store,
@@ -280,8 +283,8 @@ package core
 //@   ensures  noconflict: result1 == fs_db.ErrTxSerialization ==> old(has(u.txStore.store, oldTxId)) && filter.BeforeSeq != nil &&
 //@                         (exists k string :: old(has(u.txStore.store[oldTxId].store, k)) && oldLatest(u, newTxId, k) > old(*filter.BeforeSeq))
 // what is linked into the target is what was handed to the version-record repository, with the same numbers
-//@   hint after (*UseCase).storeToTx logged: rangeindex >= 0 && len(old(world.logSeq)) + rangeindex < len(world.logSeq) &&
-//@                         f.Seq == world.logSeq[len(old(world.logSeq)) + rangeindex] && f.ContentId == world.logCid[len(old(world.logCid)) + rangeindex]
+//@   hint before (*UseCase).storeToTx logged: rangeindex + 1 >= 0 && rangeindex + 1 < len(world.logSeq) &&
+//@                         f.Seq == world.logSeq[rangeindex + 1] && f.ContentId == world.logCid[rangeindex + 1]
 //@   hint after (*file).PopBack free:     forall i int :: 0 <= i && i < len(freeNodes) ==> pendingNode(u, freeNodes[i])
 //@   hint after (*file).PopBack popped:   result != nil ==> pendingNode(u, result) && forall i int :: 0 <= i && i < len(freeNodes) ==> freeNodes[i] != result
 //@   hint after (*file).PopBack newsame:  forall k string :: latestSeq(newTx, k) == oldLatest(u, newTxId, k)
@@ -347,7 +350,7 @@ package core
 //@                        (err != nil <==> (filter.BeforeSeq != nil && exists k string :: seen(k) && oldLatest(u, newTxId, k) > *filter.BeforeSeq))
 //@   invariant newsame:   (forall k string :: latestSeq(newTx, k) == oldLatest(u, newTxId, k)) && (filter.BeforeSeq != nil ==> *filter.BeforeSeq == old(*filter.BeforeSeq))
 //@   invariant keys:      forall k string :: has(tx.store, k) == old(has(u.txStore.store[oldTxId].store, k))
-//@   invariant nolog:     world.logSeq == old(world.logSeq) && world.logCid == old(world.logCid)
+//@   invariant nolog:     len(world.logSeq) == 0 && len(world.logCid) == 0
 //@ loop (*UseCase).UpdateTx#2
 //@   invariant inv:       ucInv(u) && tx != nil && toplevel(tx) && txInv(tx) && !tx.WithoutSearch && tx.store == $range
 //@   invariant detached:  !has(u.txStore.store, oldTxId) && forall id string :: has(u.txStore.store, id) ==> u.txStore.store[id] != tx
@@ -363,22 +366,22 @@ package core
 //@                        (err != nil <==> (filter.BeforeSeq != nil && exists k string :: seen(k) && oldLatest(u, newTxId, k) > *filter.BeforeSeq))
 //@   invariant newsame:   (forall k string :: latestSeq(newTx, k) == oldLatest(u, newTxId, k)) && (filter.BeforeSeq != nil ==> *filter.BeforeSeq == old(*filter.BeforeSeq))
 //@   invariant keys:      forall k string :: has(tx.store, k) == old(has(u.txStore.store[oldTxId].store, k))
-//@   invariant nolog:     world.logSeq == old(world.logSeq) && world.logCid == old(world.logCid)
+//@   invariant nolog:     len(world.logSeq) == 0 && len(world.logCid) == 0
 // the durable batch: every version is re-sequenced and handed to the repository with the number it will be linked under
 //@ loop (*UseCase).UpdateTx>(*UseCase).UpdateTx$4#1
 //@   invariant idx:       -1 <= rangeindex && rangeindex + 1 <= len(files)
 //@   decreases len(files) - rangeindex
 //@   invariant inv:       ucInv(u)
-//@   invariant log:       len(world.logSeq) == len(old(world.logSeq)) + rangeindex + 1 && len(world.logCid) == len(old(world.logCid)) + rangeindex + 1 &&
-//@                        forall j int :: 0 <= j && j <= rangeindex ==> world.logSeq[len(old(world.logSeq)) + j] == files[j].Seq && world.logCid[len(old(world.logCid)) + j] == files[j].ContentId
+//@   invariant log:       len(world.logSeq) == rangeindex + 1 && len(world.logCid) == rangeindex + 1 &&
+//@                        forall j int :: 0 <= j && j <= rangeindex ==> world.logSeq[j] == files[j].Seq && world.logCid[j] == files[j].ContentId
 //@   invariant above:     forall j int :: 0 <= j && j <= rangeindex ==> files[j].Seq <= sequence.seq && forall m *core.Node[model.File] :: m.owner != nil ==> m.v.Seq < files[j].Seq
 //@   invariant incr:      forall a, b int :: 0 <= a && a < b && b <= rangeindex ==> files[a].Seq < files[b].Seq
 //@ loop (*UseCase).UpdateTx#3
 //@   invariant idx:       -1 <= rangeindex && rangeindex + 1 <= len(files)
 //@   decreases len(files) - rangeindex
 //@   invariant inv:       ucInv(u) && newTx != nil && has(u.txStore.store, newTxId) && u.txStore.store[newTxId] == newTx && !has(u.txStore.store, oldTxId)
-//@   invariant log:       len(world.logSeq) == len(old(world.logSeq)) + len(files) &&
-//@                        forall j int :: 0 <= j && j < len(files) ==> world.logSeq[len(old(world.logSeq)) + j] == files[j].Seq && world.logCid[len(old(world.logCid)) + j] == files[j].ContentId
+//@   invariant log:       len(world.logSeq) == len(files) && len(world.logCid) == len(files) &&
+//@                        forall j int :: 0 <= j && j < len(files) ==> world.logSeq[j] == files[j].Seq && world.logCid[j] == files[j].ContentId
 //@   invariant above:     forall j int :: rangeindex < j && j < len(files) ==> files[j].Seq > 0 && files[j].Seq <= sequence.seq && forall m *core.Node[model.File] :: m.owner != nil ==> m.v.Seq < files[j].Seq
 //@   invariant incr:      forall a, b int :: 0 <= a && a < b && b < len(files) ==> files[a].Seq < files[b].Seq
 //@   invariant free:      forall i int :: 0 <= i && i < len(freeNodes) ==> pendingNode(u, freeNodes[i])
